@@ -63,29 +63,42 @@ Definition memb {A} (eqb : A -> A -> bool) (a : A) (l : list A) : bool := exists
 Definition same_keys {A} (eqb : A -> A -> bool) (l1 l2 : list A) : bool :=
   (Z.of_nat (length l1) =? Z.of_nat (length l2))%Z && forallb (fun a => memb eqb a l2) l1.
 
+(* intermediate values: every entry of the implementation's data_view (normalised samples) against the model's
+   data store, within 2^-44 of (bound of |f| on the grid box + |data_min|) / |data_delta| *)
+Definition data_tol (fb : option (Q * Q)) (bscale : Q) : Q :=
+  pow2 (-44) * ((bscale + Qabs (data_min fb)) * Qabs (1 / data_delta fb)).
+Definition data_close {N} (neqb : N -> N -> bool) (tol : Q) (model impl : list (N * Q)) : bool :=
+  forallb (fun kv => match lookupN neqb (fst kv) model with
+                     | Some vm => Qle_bool (Qabs (snd kv - vm)) tol
+                     | None => false
+                     end) impl.
+
 (* 1-D case: node array of the implementation (exact doubles), function bounds, no_boundary_error,
    polynomial, history, per-step record, final sets of calculated cells and of sampled nodes *)
 Definition check1 (xl : list Q) (fb : option (Q * Q)) (nbe : bool) (cs : list Q) (pts : list Q)
-           (impl : list (Z * Q * list Z)) (cells_f nodes_f : list Z) : bool :=
+           (impl : list (Z * Q * list Z)) (cells_f : list Z) (nodes_f : list (Z * Q)) : bool :=
   let x := nthQ xl in let top := topof xl in
   let '(tr, st) := trace1 fb nbe x top (f1 cs) empty pts in
   forallb2 (fun pm i => step_ok Z.eqb (b1 cs (ext xl (fst pm)) + fbscale fb) (axis_code xl (fst pm)) (snd pm) i) (combine pts tr) impl
   && (Z.of_nat (length pts) =? Z.of_nat (length tr))%Z
   && same_keys Z.eqb (map fst (cells st)) cells_f
-  && same_keys Z.eqb (map fst (data st)) nodes_f.
+  && same_keys Z.eqb (map fst (data st)) (map fst nodes_f)
+  && data_close Z.eqb (data_tol fb (b1 cs (ext xl 0))) (data st) nodes_f.
 
 Definition check2 (xl yl : list Q) (fb : option (Q * Q)) (nbe : bool) (cs : list (list Q)) (pts : list (Q * Q))
-           (impl : list (Z * Q * list (Z * Z))) (cells_f nodes_f : list (Z * Z)) : bool :=
+           (impl : list (Z * Q * list (Z * Z))) (cells_f : list (Z * Z)) (nodes_f : list (Z * Z * Q)) : bool :=
   let '(tr, st) := trace2 fb nbe (nthQ xl) (nthQ yl) (topof xl) (topof yl) (f2 cs) empty pts in
   forallb2 (fun pm i => step_ok eqb2 (b2 cs (ext xl (fst (fst pm))) (ext yl (snd (fst pm))) + fbscale fb)
                                      (axis_code xl (fst (fst pm)), axis_code yl (snd (fst pm))) (snd pm) i)
            (combine pts tr) impl
   && (Z.of_nat (length pts) =? Z.of_nat (length tr))%Z
   && same_keys eqb2 (map fst (cells st)) cells_f
-  && same_keys eqb2 (map fst (data st)) nodes_f.
+  && same_keys eqb2 (map fst (data st)) (map fst nodes_f)
+  && data_close eqb2 (data_tol fb (b2 cs (ext xl 0) (ext yl 0))) (data st) nodes_f.
 
 Definition check3 (xl yl zl : list Q) (fb : option (Q * Q)) (nbe : bool) (cs : list (list (list Q)))
-           (pts : list (Q * Q * Q)) (impl : list (Z * Q * list (Z * Z * Z))) (cells_f nodes_f : list (Z * Z * Z)) : bool :=
+           (pts : list (Q * Q * Q)) (impl : list (Z * Q * list (Z * Z * Z))) (cells_f : list (Z * Z * Z))
+           (nodes_f : list (Z * Z * Z * Q)) : bool :=
   let '(tr, st) := trace3 fb nbe (nthQ xl) (nthQ yl) (nthQ zl) (topof xl) (topof yl) (topof zl) (f3 cs) empty pts in
   forallb2 (fun pm i => let '(px, py, pz) := fst pm in
                         step_ok eqb3 (b3 cs (ext xl px) (ext yl py) (ext zl pz) + fbscale fb)
@@ -93,7 +106,8 @@ Definition check3 (xl yl zl : list Q) (fb : option (Q * Q)) (nbe : bool) (cs : l
            (combine pts tr) impl
   && (Z.of_nat (length pts) =? Z.of_nat (length tr))%Z
   && same_keys eqb3 (map fst (cells st)) cells_f
-  && same_keys eqb3 (map fst (data st)) nodes_f.
+  && same_keys eqb3 (map fst (data st)) (map fst nodes_f)
+  && data_close eqb3 (data_tol fb (b3 cs (ext xl 0) (ext yl 0) (ext zl 0))) (data st) nodes_f.
 
 (* __init__: accepted arguments, number of nodes, node positions (2^-46 of the magnitude of the
    arguments: the code computes them in double precision) *)
